@@ -165,6 +165,31 @@ def run(ctx):
             items.append(f'chk_slices {qlit(X.hz(cf2))} {qlit(X.hz(z.chan_bw))} {nchan} {ALIGN[al2]} [(Some {a}, Some {b})] {qlit(tol)} {bobs(z)} (Some {bobs(y)}) {a}')
             meta.append(dict(inp=dict(inp, then_slice=[a, b]), impl=dict(nchan=y.nchan, cf=str(y.center_freq), align=y.freq_align)))
 
+    # Stokes / trailing-axis component selection on the signal AS CONSTRUCTED (any alignment, no frequency slice in between):
+    # time and frequency labels must be those of the original
+    for k in range(ncons // 3):
+        nchan, al, cf, bw = rand_band()
+        start = Time('2021-03-04T05:06:07', precision=9) if rng.random() < 0.5 else None
+        z = mk('FullStokesSignal', nchan, al, cf, bw, L=4, start=start)
+        comp = rng.choice('IQUV')
+        how = rng.choice(['key', 'attr'])
+        inp = dict(op='stokes_direct', cls='FullStokesSignal', nchan=nchan, align=al, cf=str(cf), bw=str(bw), comp=comp, how=how)
+        ctx.seen(inp, nontrivial=nchan >= 2)
+        ctx.count('stokes_direct')
+        try:
+            y = z[comp] if how == 'key' else getattr(z, 'stokes' + comp)
+        except Exception as e:
+            ctx.fail('stokes_selection_raised', inp, impl=repr(e))
+            continue
+        if type(y) is not pb.IntensitySignal or y.start_time != z.start_time or y.sample_rate != z.sample_rate or len(y) != len(z) or y.nchan != z.nchan:
+            ctx.fail('stokes_selection_changed_time_or_shape', inp, impl=repr(y))
+            continue
+        tol = tol_for(X.hz(cf), X.hz(z.chan_bw), nchan)
+        items.append(f'chk_new {qlit(X.hz(cf))} {qlit(X.hz(z.chan_bw))} {nchan} {ALIGN[al]} {qlit(tol)} {bobs(y)}')
+        meta.append(dict(inp=inp, impl=dict(align=y.freq_align, f0=str(y.channel_freqs[0]))))
+        if not np.array_equal(y.channel_freqs.to_value(u.Hz), z.channel_freqs.to_value(u.Hz)):
+            ctx.fail('stokes_selection_changed_frequency_labels', inp, impl=[str(y.channel_freqs[0]), str(z.channel_freqs[0])])
+
     def rb(n):
         r = rng.random()
         if r < 0.25:
